@@ -362,7 +362,8 @@ var vc01ByteAlphabet = []string{
 
 // reduced alphabet (20 symbols) for one more symbol of length
 var vc01ByteAlphabetTiny = []string{
-	"a", "1", "\u00e9", "*", "\\", ".", "-", " ", "\"", "/", "(", ")", "[", "]", ":", "+", "<", "~", "\xff", "\x00",
+	"a", "1", "*", "\\", ".", "-", " ", "\"", "/", "(", ")", "[", ":", "~", "\xff", "\u00e9", // the quick tier uses these 16
+	"]", "+", "<", "\x00",
 }
 
 // token vocabulary (joined by single spaces)
@@ -374,9 +375,8 @@ var vc01Tokens = []string{
 
 // reduced token vocabulary (20 tokens) for one more token of length
 var vc01TokensTiny = []string{
-	"a", "1", `"q r"`, "/re/", "w*", "*",
-	"AND", "OR", "NOT", "TO",
-	"(", ")", "[", "]", ":", "+", "-", "=", "~", "^",
+	"a", "1", `"q r"`, "w*", "AND", "OR", "NOT", "TO", "(", ")", "[", "]", ":", "-", "~", "/re/", // the quick tier uses these 16
+	"*", "+", "=", "^",
 }
 
 // reduced chunk vocabulary (30 chunks) for one more chunk of length
@@ -476,6 +476,13 @@ func vc01Templates(emit func(string)) {
 type vc01Family struct {
 	name string
 	gen  func(n int) string // n = approximate number of tokens
+}
+
+// families that contain bare literals, i.e. whose tree depends on the default field; the quick
+// tier runs the other families without a default field only
+var vc01BareFamilies = map[string]bool{
+	"open-parens": true, "nested-parens-literal": true, "implicit-and-literals": true, "or-literals": true, "in-list": true,
+	"right-nested-fields": true, "fuzzy-boost-chain": true, "quotes-many": true, "numbers-many": true, "mixed-unbalanced": true,
 }
 
 func vc01Rep(s string, n int) string {
@@ -802,13 +809,14 @@ func TestVerifStandin_C01(t *testing.T) {
 	rep.Failures = nil
 
 	// full vocabularies up to length L, reduced vocabularies at length L+1
-	byteLen, tokLen, chunkLen, nRandom := 3, 3, 2, 60000
-	nextBytes, nextTokens := vc01ByteAlphabetTiny, vc01TokensTiny
+	byteLen, tokLen, chunkLen, nRandom := 3, 3, 2, 30000
+	nextBytes, nextTokens := vc01ByteAlphabetTiny[:16], vc01TokensTiny[:16]
 	if tier != "thorough" {
 		vc01Sizes = vc01Sizes[:8] // ... 5000
 	}
 	if tier == "thorough" {
 		byteLen, tokLen, chunkLen, nRandom = 4, 4, 3, 750000
+		nextBytes, nextTokens = vc01ByteAlphabetTiny, vc01TokensTiny
 	}
 
 	t0 := time.Now()
@@ -1038,6 +1046,9 @@ func TestVerifStandin_C01(t *testing.T) {
 		var ladders []*vc01Ladder
 		for i := range vc01Families {
 			for c := 0; c < ncfg; c++ {
+				if c > 0 && tier != "thorough" && !vc01BareFamilies[vc01Families[i].name] {
+					continue
+				}
 				ladders = append(ladders, &vc01Ladder{family: &vc01Families[i], cfg: c, callStage: -1})
 			}
 		}
@@ -1129,9 +1140,14 @@ func TestVerifStandin_C01(t *testing.T) {
 					runtime.UnlockOSThread()
 					flag2, desc2 := vc01Growth(again, vc01Sizes[k-3:k], floor)
 					if flag2 {
-						cat := "superquadratic-" + vc01StageTag[st] + "-" + l.family.name
+						tag, opName := vc01StageTag[st], vc01StageName[st]
+						if pt := l.times[vc01StParse]; (st == vc01StToPostgres || st == vc01StToParam) && len(pt) >= k && 2*pt[k-1] >= ts[k-1] {
+							tag = vc01StageTag[vc01StParse] // the renderers parse first: the time is spent in Parse
+							opName += " (most of it inside Parse)"
+						}
+						cat := "superquadratic-" + tag + "-" + l.family.name
 						total.add(cat, "shape "+l.family.name, fmt.Sprintf("[%s] %s : running time of %s with %s on shape %s must grow at most quadratically between n and 2n tokens; measured %s; re-measured without concurrent load: %s",
-							cat, strconv.Quote(l.family.gen(12)), vc01StageName[st], vc01Cfgs[l.cfg].name, l.family.name, desc, desc2), 1)
+							cat, strconv.Quote(l.family.gen(12)), opName, vc01Cfgs[l.cfg].name, l.family.name, desc, desc2), 1)
 					}
 				}
 			}
@@ -1143,7 +1159,7 @@ func TestVerifStandin_C01(t *testing.T) {
 		}
 		rep.Timing = append(rep.Timing, fmt.Sprintf("largest shape size (tokens) reached per operation within the per-call budget of %v: Parse %d, ToPostgres %d, ToParameterizedPostgres %d, String %d, %%#v %d, json.Marshal %d",
 			budget, maxTokens[0], maxTokens[1], maxTokens[2], maxTokens[3], maxTokens[4], maxTokens[5]))
-		rep.Domains[fmt.Sprintf("long-shapes-%d-families-x-%d-options-at-%v-tokens", len(vc01Families), ncfg, vc01Sizes)] = int64(len(ladders))
+		rep.Domains[fmt.Sprintf("long-shapes-%d-families-at-%v-tokens (family x option pairs)", len(vc01Families), vc01Sizes)] = int64(len(ladders))
 	}
 	phase2Dur, phase2CPU := time.Since(t1), vc01CPU()-phase1CPU
 
@@ -1199,7 +1215,7 @@ func TestVerifStandin_C01(t *testing.T) {
 	rep.Bound = fmt.Sprintf("every input x default-field options {none, \"f\"} (plus a hostile field name with double quote, space and wildcard on the empty, chunk, template and random domains) x {Parse, ToPostgres, ToParameterizedPostgres, String, %%#v, json.Marshal}; inputs: "+
 		"all byte strings of <=%d symbols over a %d-symbol alphabet covering every token-start class (ASCII and 2-byte letters and digits, wildcards, escape, every operator symbol, both quotes, slash, dot, minus, space, NUL, three invalid UTF-8 bytes, a non-token character) and all of %d symbols over a %d-symbol sub-alphabet; "+
 		"all sequences of <=%d tokens over %d token kinds and all of %d tokens over %d kinds; all sequences of <=%d chunks (whole clauses and connectors) over %d chunks and all of %d over %d; clause templates over %d values (ranges, lists, comparisons, fuzzy, boost, field position); "+
-		"%d seeded random byte strings (<=24 bytes: raw bytes, printable ASCII, class alphabet) and %d random token/chunk sequences (5..14 items); %d adversarial shape families (deep nesting, long operator chains, operator-only, unbalanced brackets, long tokens) at %v tokens with timing. "+
+		"%d seeded random byte strings (<=24 bytes: raw bytes, printable ASCII, class alphabet) and %d random token/chunk sequences (5..14 items); %d adversarial shape families (deep nesting, long operator chains, operator-only, unbalanced brackets, long tokens) at %v tokens with timing (quick tier: the default-field option only on the families with bare literals). "+
 		"distinct_nontrivial = inputs for which Parse returned a tree under at least one option, so that all six operations ran (enumerated strings are pairwise distinct within a domain; cross-domain overlap is below 0.1%%)",
 		byteLen, len(vc01ByteAlphabet), byteLen+1, len(nextBytes), tokLen, len(vc01Tokens), tokLen+1, len(nextTokens), chunkLen, len(vc01Chunks), chunkLen+1, len(vc01ChunksSmall), len(vc01Values), nRandom, nRandom, len(vc01Families), vc01Sizes)
 	rep.Notes = append(rep.Notes,
